@@ -58,6 +58,7 @@ fn registry(id: &str) -> Option<(&'static str, RunFn, ReplayFn)> {
         "C02" => ("C02", props::c02::run, props::c02::replay),
         "C03" => ("C03", props::c03::run, props::c03::replay),
         "C04" => ("C04", props::c04::run, props::c04::replay),
+        "C05" => ("C05", props::c05::run, props::c05::replay),
         "C06" => ("C06", props::c06::run, props::c06::replay),
         "C07" => ("C07", props::c07::run, props::c07::replay),
         "C08" => ("C08", props::c08::run, props::c08::replay),
